@@ -1,6 +1,6 @@
 import FluentVerif.Proto.RoundTripHs
 import FluentVerif.Props.C13
-import FluentVerif.Proto.DecodeComplete
+import FluentVerif.Proto.DecodeComplete2
 /-! # C01 — round-trip fidelity of every message kind through both codec paths
 
 For every representable message `m` (explicit well-formedness hypotheses: lengths and counts below
@@ -140,6 +140,28 @@ theorem C01_alt_Options (p : Path) (recv : Options) (b r : Bytes) (kvs : Objs)
     (h : parse b = some (.map kvs, r)) (hk : OptKVsOK kvs) :
     Options.unmarshal p recv b = .ok (foldOpts kvs recv) r :=
   Options.unmarshal_complete p recv h hk
+
+theorem C01_alt_Ack (p : Path) (recv : Ack) (b r : Bytes) (kvs : Objs)
+    (h : parse b = some (.map kvs, r)) (hk : KVsOK ackOK kvs) :
+    Ack.unmarshal p recv b = .ok (foldKVs ackApply kvs recv) r := Ack.unmarshal_complete p recv h hk
+
+theorem C01_alt_Helo (p : Path) (recv : Helo) (b r mt : Bytes) (opt : Obj)
+    (h : parse b = some (.arr (.cons (.str mt) (.cons opt .nil)), r))
+    (ho : opt = .nil ∨ ∃ kvs, opt = .map kvs ∧ KVsOK heloOK kvs) :
+    Helo.unmarshal p recv b = .ok (Helo.mk mt
+      (match opt with
+        | .map kvs => some (foldKVs heloApply kvs (recv.options.getD {}))
+        | _ => none)) r := Helo.unmarshal_complete p recv h ho
+
+theorem C01_alt_Pong (p : Path) (recv : Pong) (b r mt reason host dig : Bytes) (ar : Bool)
+    (h : parse b = some (.arr (.cons (.str mt) (.cons (.bool ar) (.cons (.str reason) (.cons (.str host)
+      (.cons (.str dig) .nil))))), r)) :
+    Pong.unmarshal p recv b = .ok (Pong.mk mt ar reason host dig) r := Pong.unmarshal_complete p recv h
+
+theorem C01_alt_Ping (p : Path) (recv : Ping) (b r mt host salt dig user pw : Bytes)
+    (h : parse b = some (.arr (.cons (.str mt) (.cons (.str host) (.cons (.bin salt) (.cons (.str dig)
+      (.cons (.str user) (.cons (.str pw) .nil)))))), r)) :
+    Ping.unmarshal p recv b = .ok (Ping.mk mt host salt dig user pw) r := Ping.unmarshal_complete p recv h
 
 /-- the hypotheses are met by an encoding the library itself never produces: str8 tag, uint32 time,
 map16 options with an unknown key whose value is an array, `size` as uint8, then trailing bytes -/
